@@ -13,6 +13,7 @@ import (
 	"strconv"
 	"strings"
 	"sync"
+	"sync/atomic"
 	"syscall"
 	"time"
 )
@@ -75,7 +76,32 @@ type Worker struct {
 	cur     int
 	samples int
 	timer   *time.Timer
+	step    *time.Timer
 	Replay  bool
+}
+
+// Step arms a finer watchdog for one step of the current case (one program of a batch): work that needs milliseconds
+// and is still running after d ends the worker like the case watchdog does (exit 97), with the step's label on the
+// first line of the dump so that the report names the step. d == 0 disarms it. The verdict never depends on how long a
+// step took, only on whether it ended at all within a bound three orders of magnitude above its need.
+func (w *Worker) Step(d time.Duration, label string) {
+	if w.step != nil {
+		w.step.Stop()
+		w.step = nil
+	}
+	if d == 0 {
+		return
+	}
+	i := w.cur
+	w.step = time.AfterFunc(d, func() {
+		buf := make([]byte, 1<<20)
+		n := runtime.Stack(buf, true)
+		if len(label) > 600 {
+			label = label[:600]
+		}
+		fmt.Fprintf(os.Stderr, "WATCHDOG case %d: a step was still running after %v: %s\n%s\n", i, d, strings.ReplaceAll(label, "\n", " "), buf[:n])
+		os.Exit(97)
+	})
 }
 
 func (w *Worker) emit(r rec) {
@@ -134,6 +160,7 @@ func (w *Worker) begin(i int) {
 	if w.timer != nil {
 		w.timer.Stop()
 	}
+	w.Step(0, "")
 	d := w.Spec.CaseTimeout
 	if d == 0 {
 		d = 120 * time.Second
@@ -338,6 +365,11 @@ func parentMain(s *Spec, tier string) int {
 	self, _ := os.Executable()
 	var wg sync.WaitGroup
 	var mu sync.Mutex
+	// hangs are expensive (each one costs a whole watchdog period): once a run has seen hangBudget of them it is a
+	// violation anyway, and a worker that hangs again is not started another time — the cases it would still have run
+	// are counted as not evaluated
+	const hangBudget = 4
+	var hangs int32
 	for k := 0; k < nw; k++ {
 		wg.Add(1)
 		go func(k int) {
@@ -395,6 +427,12 @@ func parentMain(s *Spec, tier string) int {
 				}
 				f.Close()
 				from = last + 1
+				if code == 97 && s.HangIsViol && atomic.AddInt32(&hangs, 1) >= hangBudget {
+					mu.Lock()
+					p.Counts["workers_not_restarted_after_the_hang_budget"]++
+					mu.Unlock()
+					return
+				}
 			}
 		}(k)
 	}
